@@ -445,6 +445,90 @@ func ruleImmut(c *Ctx) {
 		}
 	}
 	c.ok("no-global-writes", token.NoPos, "no package-level variable of lexer, parser, internal/*, interp is stored to, map-updated, appended to or copied into outside package init (%d offending sites)", nGlob)
+	sharedSliceFields(c)
+}
+
+// sharedSliceFields: interpreter fields that hold a slice owned by somebody else - the caller's Config or a
+// package-level default shared by all interpreters - are never appended to or written through in place.
+// (append(x[a:b], v) writes into x's spare capacity when there is any; only a three-index slice x[a:b:b],
+// or appending onto fresh storage with the shared slice as the source, is safe whatever the capacity.)
+func sharedSliceFields(c *Ctx) {
+	fns := c.srcFuncs("interp")
+	shared := map[string]string{} // field -> where its value comes from
+	for _, fn := range fns {
+		allInstrs(fn, func(in ssa.Instruction) {
+			name, val := interpFieldStore(in)
+			if name == "" {
+				return
+			}
+			if _, ok := val.Type().Underlying().(*types.Slice); !ok {
+				return
+			}
+			v := val
+			for i := 0; i < 4; i++ {
+				if ph, ok := v.(*ssa.Phi); ok && len(ph.Edges) > 0 {
+					v = ph.Edges[0]
+				}
+			}
+			if u, ok := v.(*ssa.UnOp); ok && u.Op == token.MUL {
+				if g, ok := u.X.(*ssa.Global); ok && g.Pkg != nil && strings.HasPrefix(g.Pkg.Pkg.Path(), modPath) {
+					shared[name] = "package-level " + g.Name()
+				}
+				if f, x := fieldOfAddr(u.X); f != nil && isNamed(deref(x.Type()), modPath+"/interp", "Config") {
+					shared[name] = "Config." + f.Name()
+				}
+			}
+		})
+	}
+	n := 0
+	for _, fn := range fns {
+		fn := fn
+		idx := map[string]int{}
+		allInstrs(fn, func(in ssa.Instruction) {
+			call, ok := in.(*ssa.Call)
+			if !ok {
+				return
+			}
+			b, ok := call.Call.Value.(*ssa.Builtin)
+			if !ok || (b.Name() != "append" && b.Name() != "copy") || len(call.Call.Args) == 0 {
+				return
+			}
+			// destination: strip two-index slices
+			dst := call.Call.Args[0]
+			capped := false
+			for {
+				sl, ok := dst.(*ssa.Slice)
+				if !ok {
+					break
+				}
+				if sl.Max != nil {
+					capped = true
+				}
+				dst = sl.X
+			}
+			f := interpFieldLoad(dst)
+			if f == "" || shared[f] == "" {
+				return
+			}
+			n++
+			idx[f]++
+			key := "shared-slice:" + b.Name() + ":" + fnKey(fn) + ":" + f
+			if idx[f] > 1 {
+				key += "#" + itoa(int64(idx[f]))
+			}
+			c.check(capped && b.Name() == "append", key, in.Pos(), "capacity is capped by a three-index slice, so append copies",
+				fnKey(fn)+" uses p."+f+" (which holds "+shared[f]+") as the destination of "+b.Name()+": if that slice has spare capacity the write lands in storage owned by the caller or shared by all interpreters - concurrent executions race on it and can observe each other's data")
+		})
+	}
+	var names []string
+	for k, v := range shared {
+		names = append(names, k+" <- "+v)
+	}
+	sort.Strings(names)
+	if n == 0 {
+		c.ok("shared-slice:none", token.NoPos, "no append/copy has a caller-owned or package-level slice as its destination (fields holding such slices: %s)", strings.Join(names, "; "))
+	}
+	c.atLeast("interpreter fields holding caller-owned or shared slices", len(shared), 1)
 }
 
 // globalRoot: the package-level variable whose storage (or whose slice/map value, through loads) v refers to.
